@@ -123,7 +123,7 @@ def analyse_c19(program, s, run, verdict):
         m = re.search(rb'"t([0-9]+)"', req["body"])
         if m and "symbol" in req:
             by_token.setdefault(int(m.group(1)), []).append(req["symbol"])
-    STATUS = {"4xx-len": 404, "5xx-len": 500, "5xx-nolen-close": 503, "bodiless": 204}
+    STATUS = {"4xx-len": 404, "5xx-len": 500, "5xx-nolen-close": 503, "bodiless": 204, "bodiless-open": 502}
     for i in sorted(outcomes):
         out = outcomes[i]
         tok = "t%d" % i
@@ -262,6 +262,10 @@ class BlockError(Exception):
     pass
 
 
+class BlockBaseError(BaseException):
+    """A cancellation-style exception (like KeyboardInterrupt) raised inside a block."""
+
+
 HEADER_NAMES = ["X-A", "x-a", "X-a", "X-Test", "x-test", "X-TEST", "Authorization", "authorization", "User-Agent", "user-agent",
                 "USER-AGENT", "Content-Length", "content-length", "Content-Type", "CONTENT-TYPE", "X-Num", "Accept-Language"]
 HEADER_VALUES = ["v1", "v2", "v3", "", "a b", 0, 5, 1.5, True, False, None, "ünï"]
@@ -312,7 +316,7 @@ def gen_ops(rng, depth, budget, palette=None):
         elif k < 0.88:
             ops.append(["fail-call", rng.choice(["refuse", "reset", "5xx-len", "truncated", "close-before-reply", "4xx-len"])])
         elif depth > 0:
-            ops.append(["raise"])
+            ops.append(["raise", rng.choice(["exception", "exception", "base"])])
         else:
             ops.append(["call"])
     return ops
@@ -411,6 +415,9 @@ class C18Run(object):
                 except BaseException as ex:
                     s.emit("caught", type(ex).__name__)
             elif op[0] == "raise":
+                if len(op) > 1 and op[1] == "base":
+                    self.s.probe("base_exception_exit")
+                    raise BlockBaseError("interrupted inside the block")
                 raise BlockError("user code failed inside the block")
             elif op[0] == "fail-call":
                 self.do_request("call", op[1])
@@ -631,6 +638,10 @@ def gen_text(rng, around=None):
         n = rng.choice([0, 1, 5, 40, 300, 1100, 2500])
         return "".join(rng.choice(MB + ["a", "b", " ", "z"]) for _ in range(n))
     pad = max(0, around - rng.randint(0, 6))
+    k = rng.random()
+    if k < 0.15:
+        # a read block made of white space only
+        return "a" * rng.randint(0, 1100) + rng.choice([" ", "\n", "\t", " \n"]) * rng.randint(1030, 3200) + "é" + "z" * rng.randint(0, 30)
     return "a" * pad + "".join(rng.choice(MB) for _ in range(rng.randint(2, 8))) + "b" * rng.randint(0, 40)
 
 
@@ -647,7 +658,7 @@ def gen_c17(rng):
                 "backend": backend, "param": gen_text(rng), "result": gen_text(rng, around),
                 "encoding": rng.choice(["identity", "identity", "gzip", "chunked"]),
                 "seg": rng.choice(["whole", "random", "small"]), "http10": rng.random() < 0.5,
-                "style": rng.choice(["call", "call", "notify", "batch"])}
+                "style": rng.choice(["call", "call", "notify", "batch"]), "indent": rng.choice([None, None, None, 1200])}
     if k < 0.9:
         chunk = rng.choice([None, 1, 2, 3, 5, 7, 16, 64, 1000])
         return {"mode": "server", "kind": rng.choice(["plain", "pooled"]), "family": rng.choice(["tcp", "unix"]),
@@ -708,10 +719,10 @@ class C17Run(object):
                 return b"{}"
             if isinstance(obj, list):
                 out = [{"jsonrpc": "2.0", "id": e["id"], "result": p["result"]} for e in obj if "id" in e]
-                return json.dumps(out, ensure_ascii=False).encode("utf-8")
+                return json.dumps(out, ensure_ascii=False, indent=p.get("indent")).encode("utf-8")
             if "id" not in obj:
                 return b""
-            return json.dumps({"jsonrpc": "2.0", "id": obj["id"], "result": p["result"]}, ensure_ascii=False).encode("utf-8")
+            return json.dumps({"jsonrpc": "2.0", "id": obj["id"], "result": p["result"]}, ensure_ascii=False, indent=p.get("indent")).encode("utf-8")
 
         pr = peermod.Peer(s, p["family"], [], reply_fn=reply, encoding=p.get("encoding", "identity"), http10=p.get("http10", False))
         pr.start()
@@ -974,6 +985,8 @@ class C17Scenario(object):
                 pass
             if len(b) > 1024 and any(ord(c) > 127 for c in pg["result"]):
                 p["multibyte_response_beyond_first_read"] = 1
+            if " " * 1030 in pg["result"] or "\n" * 1030 in pg["result"] or pg.get("indent"):
+                p["whitespace_only_read_block"] = 1
             if pg["query"]:
                 p["query_string"] = 1
             if "%" in pg["path"]:
